@@ -463,6 +463,15 @@ impl Case for WakeCase {
             }
             unsafe { drop(Box::from_raw(std::ptr::from_ref(fd).cast_mut())) };
         }
+        if self.mode == "sqpoll" {
+            // The (awake) kernel thread takes what the teardown queued — a real one does so on its
+            // own within microseconds; a10's last handle waits for it (fix 5ae3e32: bounded wait in
+            // `Shared::drop`), and the simulated thread only runs when the harness says so.
+            simk::with_ring(self.rfd, |r, ev| {
+                let n = r.sq_pending();
+                r.consume(n, ev);
+            });
+        }
         drop(self.sq.take());
         simk::drain_events();
         util::drain_wakes();
